@@ -64,6 +64,8 @@ def run_config(pid, cfg, tier, seed, timeout_ms, max_paths):
     _install_reset_hook()
     env = SymEnv(timeout_ms=timeout_ms, seed=seed, max_paths=max_paths)
     env.cross_limit = int(os.environ.get('SYMX_CVC5', '2' if tier == 'thorough' else '0'))
+    # on the unchanged tree the slowest quick configuration takes ~20 s, the slowest thorough one ~40 min
+    env.wall_budget_s = int(os.environ.get('VERIF_CONFIG_BUDGET_S', getattr(mod, 'CONFIG_BUDGET_S', {}).get(tier, 600 if tier == 'quick' else 14400)))
     trace.start()
     t0 = time.time()
     res = {'cfg': cfg, 'label': cfg_label(cfg), 'error': None, 'failures': [], 'weights': None}
